@@ -441,3 +441,26 @@ _A_LK = ["lock objects come from store.CreateLock (etcd: meta.ETCD on embedded e
 prop("C18", "lock", "3-6 contenders x seeded random hold times (0-30 ms, some longer than the wait timeout) mixing lock and try-lock on one key, both backends; non-trivial = critical sections entered", _A_LK)
 prop("C19", "lock", "holder's lease revoked (etcd: lease of the lowest-revision key under the lock prefix) or TTL elapsed (miniredis FastForward plus real time) while a second contender waits; bound = ttl/3 + 700 ms; non-trivial = induced losses",
      _A_LK + ["miniredis keeps virtual time: the redis TTL is elapsed both in real time and with FastForward"])
+
+
+# =========================================================================== Ephemeral: C26
+@family("ephemeral")
+def fam_ephemeral(tier, base):
+    cfg = "MC_Ephemeral.cfg" if tier == "quick" else "MC_Ephemeral_thorough.cfg"
+    r = verif.model_check("MC_Ephemeral", cfg)
+    inputs, trace = base + ".in.ndjson", base + ".trace.ndjson"
+    n = verif.emit_inputs(r, inputs)
+    b = verif.build_driver("locks")
+    verif.run_driver(b, "TestEphemeral", env={"VERIF_INPUTS": inputs, "VERIF_TRACE": trace, "VERIF_PAR": 48 if tier == "quick" else 96}, timeout=7000)
+    os.remove(inputs)
+    viols, tr = verif.validate_trace("Trace_Ephemeral", "Trace_Ephemeral.cfg", trace)
+    lines = verif.read_lines(trace)
+    cnt = lambda s: sum(1 for ln in lines if s in ln)
+    return dict(trace=trace, viols=viols, states=r.distinct, transitions=r.generated, configs=[cfg, "Trace_Ephemeral.cfg"], window=12,
+                traces={"*": cnt('"ev":"EphRun"')}, samples={"*": [json.loads(x) for x in lines[:9]]}, nontrivial={"C26": cnt('"op":"lapse"')},
+                notes="%d TLC-generated schedules (all register/lapse/deregister sequences of %d ops over %d registrants, model invariants Exclusive/OwnerSafe, liveness LapseNoticed) replayed on both backends; %d induced lapses" % (n, 5 if tier == "quick" else 6, 2 if tier == "quick" else 3, cnt('"op":"lapse"')))
+
+
+prop("C26", "ephemeral", "every schedule of register / lapse / deregister of the given length over 2-3 registrants on one key, on etcd (lapse = lease revocation) and redis (lapse = TTL elapsed in miniredis virtual time); observed after each step and a settle time longer than one heartbeat tick; non-trivial = schedules with a lapse",
+     ["registrations are made with store.StartEphemeral (what RegisterService and the active node-status watcher call)", "etcd heartbeat 3 s / settle 1.4 s, redis heartbeat 2 s / settle 0.9 s; etcd ownership read back from the key's lease id; redis has no owner identity, ownership is rebuilt from the event order",
+      "a pause longer than the TTL is modelled by the lapse itself (the registrant's goroutine keeps running)"])
